@@ -36,7 +36,9 @@ RULE = ("cases = (graph, trace); below each, one BFS per configuration. states =
 ASSUMPTIONS = ["tolerance 1e-9 on 'not more probable than the predecessor' and on 'log-probability <= 0'"]
 
 CFGS = [dict(fam=f, ne=ne, avoid=True, width=w, **cut) for f in ms.FAMS for ne in (False, True) for w in (None, 1)
-        for cut in ({"max_dist": 1.5}, {"min_prob_norm": 0.3, "max_dist": 2.5})]
+        for cut in ({"max_dist": 1.5}, {"min_prob_norm": 0.3, "max_dist": 2.5})] + \
+       [dict(fam=f, ne=True, avoid=True, width=2, max_dist=2.5, obs_noise_ne=2.0) for f in ms.FAMS] + \
+       [dict(fam=f, ne=True, avoid=True, width=2, max_dist=5.0, max_dist_init=1.0, obs_noise_ne=2.0) for f in ("S", "D")]
 
 
 def space(tier):
@@ -52,6 +54,8 @@ def cases(tier):
     for name, pos, g in ms.special_graphs():
         for ti in range(4):
             yield {"gs": ms.explicit(g), "pos": pos, "name": name, "ti": ti, "tier": tier}
+        for xt in ms.axis_traces(g):
+            yield {"gs": ms.explicit(g), "pos": pos, "name": name, "trace": xt, "tier": tier}
 
 
 def invariants(m, tol=1e-9):
